@@ -1,6 +1,7 @@
 (* C12 Read-only means read-only.  Guards regenerated from adf_vol.c / adf_dev_hd.c on every run. *)
 From Coq Require Import ZArith List Bool String.
 From ADF Require Import CPrelude Generated.Leaf Generated.Layout Base.Prog Proofs.ProgP.
+From ADF Require Model.FileIO Proofs.FileIOFr.
 Import ListNotations.
 Local Open Scope Z_scope.
 
@@ -52,7 +53,17 @@ Example C12_witness : vol_ok {| v_first := 0; v_last := 1759; v_mounted := 1; v_
   g_adfWriteBlock 880 0 1759 1 1 = GRet (-1) /\ g_adfWriteBlock 880 0 1759 1 0 = GDev 880 512.
 Proof. unfold vol_ok; cbn [v_first v_last]. repeat split; try reflexivity; try (vm_compute; congruence). Qed.
 
+(* on the file handle model (Model/FileIO.v, adf_file.c statement by statement, call-level correspondence): a handle without write access -
+   the only kind a read-only volume grants - never changes the volume: reads and seeks leave every block as it was (under any set of unreadable
+   blocks), write and truncate are refused and change nothing, flush and close write nothing *)
+Theorem C12_readonly_handle_never_writes : forall bs ofs bad s, FileIO.mw s = false ->
+  (forall n, FileIO.dk (fst (FileIO.fio_read bs ofs bad s n)) = FileIO.dk s) /\ (forall p, FileIO.dk (snd (FileIO.fio_seek bs ofs bad s p)) = FileIO.dk s)
+  /\ (forall data al, FileIO.fio_write bs ofs bad s data al = (s, 0, al)) /\ (forall n al, FileIO.fio_truncate bs ofs bad s n al = (false, s, [], al))
+  /\ FileIO.fio_flush bs ofs s = s /\ FileIO.fio_close bs ofs s = FileIO.dk s.
+Proof. exact FileIOFr.readonly_handle_never_writes. Qed.
+
 Print Assumptions C12_no_write_any_program.
+Print Assumptions C12_readonly_handle_never_writes.
 Print Assumptions C12_mount_ro_no_write.
 Print Assumptions C12_mount_forces.
 Print Assumptions C12_hd_guarded.
